@@ -60,7 +60,7 @@ theorem C06_idle_same_origin (cfg : Config) (ops : List Op) (t : Token) (c : Con
 /-- Non-vacuity: two origins, a released HTTP/1 connection of the first is idle, a request for the
     second does not get it (it dials), a request for the first does. -/
 example :
-    let ops : List Op := [.issue 0 7 false, .poll 0, .dialDone 0 (.ok false), .poll 0, .finish 0, .connReady 0, .run,
+    let ops : List Op := [.issue 0 7 false, .poll 0, .dialDone 0 (.ok .asRequested), .poll 0, .finish 0, .connReady 0, .run,
                           .issue 1 9 false, .poll 1, .issue 2 7 false, .poll 2]
     let s := (run (init {}) ops).1
     s.held 2 = some ⟨0, 1, true⟩ ∧ s.held 1 = none ∧ (s.dial 1).started = true ∧ (s.dial 2).started = false := by
